@@ -367,4 +367,65 @@ example :
     baseOf "http://h:80".toList "/a//b/./list".toList = "http://h:80/a/b".toList := by
   decide
 
+/-! ## 7. What follows the leaf (`FileC.rest`) -/
+
+/-- change only what `pairCert` does not look at -/
+def reRest (g : Name → FileC → Nat) (b : Blocks) : Blocks := b.map fun e => (e.1, { e.2 with rest := g e.1 e.2 })
+
+theorem lookup_reRest (g : Name → FileC → Nat) (b : Blocks) (n : Name) :
+    (reRest g b).lookup n = (b.lookup n).map fun c => { c with rest := g n c } := by
+  induction b with
+  | nil => rfl
+  | cons e b ih =>
+    obtain ⟨m, c⟩ := e
+    simp only [reRest, List.map_cons, List.lookup_cons]
+    by_cases h : n == m
+    · have : n = m := by simpa using h
+      subst this
+      simp
+    · simp only [h]
+      exact ih
+
+theorem pairCert_ignores_rest (c k : FileC) (r1 r2 : Nat) :
+    pairCert { c with rest := r1 } { k with rest := r2 } = pairCert c k := rfl
+
+theorem loadOne_reRest (g : Name → FileC → Nat) (b : Blocks) (acc : LoadAcc) (n : Name) :
+    loadOne (reRest g b) acc n = loadOne b acc n := by
+  unfold loadOne
+  cases classify n with
+  | none => rfl
+  | some p =>
+    obtain ⟨cf, kf⟩ := p
+    simp only [lookup_reRest]
+    cases b.lookup cf <;> cases b.lookup kf <;> simp [pairCert]
+
+/-- **Which certificates are made does not depend on what follows the leaf**, … -/
+theorem loadCertificates_ignores_rest (g : Name → FileC → Nat) (b : Blocks) (order : List Name) :
+    loadCertificates (reRest g b) order = loadCertificates b order := by
+  unfold loadCertificates
+  have : ∀ acc, order.foldl (loadOne (reRest g b)) acc = order.foldl (loadOne b) acc := by
+    induction order with
+    | nil => intro acc; rfl
+    | cons n ns ih => intro acc; simp only [List.foldl_cons, loadOne_reRest, ih]
+  simp only [this]
+
+/-- … **but the watcher publishes again**: material that differs from the last published one only in what follows
+a leaf (the operator appended the missing intermediate) is different material; when it is usable it is sent on, so
+the new chain takes effect without restart. -/
+theorem chain_renewal_is_published (g : Name → FileC → Nat) (b : Blocks) (order : Blocks → List Name)
+    (ids : List (Name × Nat)) (refresh : Int) (hne : reRest g b ≠ b)
+    (hok : loadCertificates b (order b) = some ids) (hord : order (reRest g b) = order b) :
+    step true (fun m => loadCertificates m (order m)) refresh ⟨b, false⟩ (.blocks (reRest g b))
+      = (⟨reRest g b, once refresh⟩, [.publish (reRest g b) ids]) := by
+  have : loadCertificates (reRest g b) (order (reRest g b)) = some ids := by
+    rw [hord, loadCertificates_ignores_rest, hok]
+  simp [step, hne, this]
+
+example :
+    let b : Blocks := [("a-cert.pem".toList, ⟨some 0, none, 0⟩), ("a-key.pem".toList, ⟨none, some 0, 0⟩)]
+    let g : Name → FileC → Nat := fun _ c => if c.cert.isSome then 1 else 0
+    reRest g b ≠ b ∧ loadCertificates (reRest g b) (b.map (·.1)) = some [("a-cert.pem".toList, 0)] := by
+  decide
+
+
 end Fabio.Props.C11Deploy
